@@ -44,3 +44,20 @@ package core
 //@   ensures [accepted-wellformed] result == nil && c != nil ==> meta.ID != 0 && old(nonEmptyRange(meta))
 //@   ensures [accepted-not-stale] result == nil && c != nil && old(has(c.regions, meta.ID)) ==> !(meta.Epoch.Version < old(c.regions[meta.ID].Epoch.Version) || (meta.Epoch.Version == old(c.regions[meta.ID].Epoch.Version) && meta.Epoch.ConfVersion < old(c.regions[meta.ID].Epoch.ConfVersion)))
 //@   ensures [accepted-disjoint] result == nil && c != nil ==> (forall id uint64 :: old(has(c.regions, id)) && id != meta.ID ==> (forall k ByteSeq :: !(old(inR(meta, k)) && old(inR(c.regions[id], k)))))
+
+//@ func NewIDAllocator
+//@   property C27
+//@   ensures [first-is-start] result != nil && result.next.v + 1 == (start == 0 ? 1 : start)
+
+//@ func (*IDAllocator).Alloc
+//@   property C27
+//@   requires a == nil || a.next.v < 18446744073709551615
+//@   ensures [fresh] a != nil ==> result == old(a.next.v) + 1 && a.next.v == result && result > old(a.next.v)
+//@   modifies a.next.v
+
+//@ func (*IDAllocator).Reserve
+//@   property C27
+//@   requires a == nil || math(a.next.v) + math(n) <= 18446744073709551615
+//@   ensures [fresh-interval] a != nil && n != 0 ==> err == nil && last == old(a.next.v) + n && first == old(a.next.v) + 1 && a.next.v == last && first > old(a.next.v) && first <= last
+//@   ensures [rejected-unchanged] a != nil && n == 0 ==> err != nil && a.next.v == old(a.next.v)
+//@   modifies a.next.v
